@@ -87,29 +87,11 @@ struct H {
     void drain() { for (;;) { ioc.restart(); if (ioc.poll() == 0) break; } }
 };
 
-int main() {
-    auto h = std::make_unique<H>();
-    std::string line;
-    while (std::getline(std::cin, line)) {
-        std::istringstream is(line);
-        std::string cmd; is >> cmd;
-        H& W = *h; W.w.log.clear();
-        bool bad = false;
-        if (cmd == "new") { verif::world().pending.clear(); h.reset(); verif::world().pending.clear(); stream_t::registry().clear();
-            verif::vclock::now_ticks = 0; verif::world().next_stream_id = 0; h = std::make_unique<H>(); }
-        else if (cmd == "cfg") {
-            std::string k; 
-            while (is >> k) {
-                auto eq = k.find('='); std::string key = k.substr(0, eq), val = k.substr(eq + 1);
-                if (key == "ka") W.c->keep_alive((uint16_t)std::stoul(val));
-                else if (key == "cid") W.c->credentials(unhex(val));
-                else if (key == "maxpkt") W.c->connect_property(prop::maximum_packet_size, (uint32_t)std::stoul(val));
-                else if (key == "brokers") W.c->brokers(unhex(val), 1883);
-            }
-        }
-        else if (cmd == "run") { std::string op; is >> op; W.in_api = true;
-            W.c->async_run(asio::bind_cancellation_slot(W.slot(op), [&W, op](error_code ec) { W.w.ev("done " + op + " " + ecname(ec) + W.ins()); })); W.in_api = false; }
-        else if (cmd == "pub") {
+
+static void api_call(H& W, const std::string& line) {
+    std::istringstream is(line);
+    std::string cmd; is >> cmd;
+        if (cmd == "pub") {
             std::string op, t, p, pl; unsigned q, r; is >> op >> q >> r >> t >> p >> pl;
             publish_props props; pu::fill(props, pl);
             std::string topic = unhex(t), payload = unhex(p);
@@ -122,20 +104,6 @@ int main() {
             else W.c->async_publish<qos_e::exactly_once>(topic, payload, retain_e(r), props,
                 asio::bind_cancellation_slot(W.slot(op), [&W, op](error_code ec, reason_code rc, pubcomp_props pp) {
                     W.w.ev("done " + op + " " + ecname(ec) + " rc=" + std::to_string(rc.value()) + " props=" + pu::dump(pp) + W.ins()); }));
-            W.in_api = false;
-        }
-        else if (cmd == "pubn") {   // pubn <prefix> <n> <qos 1|2>: n publishes in a row (no executor step in between), names <prefix><i>, topic "t", payload = name
-            std::string pre; unsigned n, q; is >> pre >> n >> q;
-            W.in_api = true;
-            for (unsigned i = 1; i <= n; i++) {
-                std::string op = pre + std::to_string(i);
-                if (q == 1) W.c->async_publish<qos_e::at_least_once>("t", op, retain_e::no, publish_props{},
-                    asio::bind_cancellation_slot(W.slot(op), [&W, op](error_code ec, reason_code rc, puback_props pp) {
-                        W.w.ev("done " + op + " " + ecname(ec) + " rc=" + std::to_string(rc.value()) + " props=" + pu::dump(pp) + W.ins()); }));
-                else W.c->async_publish<qos_e::exactly_once>("t", op, retain_e::no, publish_props{},
-                    asio::bind_cancellation_slot(W.slot(op), [&W, op](error_code ec, reason_code rc, pubcomp_props pp) {
-                        W.w.ev("done " + op + " " + ecname(ec) + " rc=" + std::to_string(rc.value()) + " props=" + pu::dump(pp) + W.ins()); }));
-            }
             W.in_api = false;
         }
         else if (cmd == "sub") {
@@ -163,6 +131,59 @@ int main() {
         else if (cmd == "recv") { std::string op; is >> op; W.in_api = true;
             W.c->async_receive(asio::bind_cancellation_slot(W.slot(op), [&W, op](error_code ec, std::string t, std::string p, publish_props pp) {
                 W.w.ev("recvd " + op + " " + ecname(ec) + " " + tohex(t) + " " + tohex(p) + " " + pu::dump(pp) + W.ins()); })); W.in_api = false; }
+}
+
+int main() {
+    auto h = std::make_unique<H>();
+    std::string line;
+    while (std::getline(std::cin, line)) {
+        // "@<api line>": the call is made from inside a completion handler running on the io_context (dispatch() could run inline there)
+        if (!line.empty() && line[0] == '@' && h) {
+            std::string inner = line.substr(1);
+            h->w.log.clear();
+            std::string first = inner.substr(0, inner.find(' '));
+            if (first != "pub" && first != "sub" && first != "unsub" && first != "recv") { std::puts("bad-op"); std::fflush(stdout); continue; }
+            asio::post(h->ioc, [&h, inner]() { api_call(*h, inner); });
+            h->drain();
+            std::string out;
+            for (auto& e : verif::world().log) { if (!out.empty()) out += " | "; out += e; }
+            std::printf("%s ; st=%d\n", out.empty() ? "-" : out.c_str(), (int)h->ioc.stopped());
+            std::fflush(stdout);
+            continue;
+        }
+        std::istringstream is(line);
+        std::string cmd; is >> cmd;
+        H& W = *h; W.w.log.clear();
+        bool bad = false;
+        if (cmd == "new") { verif::world().pending.clear(); h.reset(); verif::world().pending.clear(); stream_t::registry().clear();
+            verif::vclock::now_ticks = 0; verif::world().next_stream_id = 0; h = std::make_unique<H>(); }
+        else if (cmd == "cfg") {
+            std::string k; 
+            while (is >> k) {
+                auto eq = k.find('='); std::string key = k.substr(0, eq), val = k.substr(eq + 1);
+                if (key == "ka") W.c->keep_alive((uint16_t)std::stoul(val));
+                else if (key == "cid") W.c->credentials(unhex(val));
+                else if (key == "maxpkt") W.c->connect_property(prop::maximum_packet_size, (uint32_t)std::stoul(val));
+                else if (key == "brokers") W.c->brokers(unhex(val), 1883);
+            }
+        }
+        else if (cmd == "run") { std::string op; is >> op; W.in_api = true;
+            W.c->async_run(asio::bind_cancellation_slot(W.slot(op), [&W, op](error_code ec) { W.w.ev("done " + op + " " + ecname(ec) + W.ins()); })); W.in_api = false; }
+        else if (cmd == "pub" || cmd == "sub" || cmd == "unsub" || cmd == "recv") { api_call(W, line); }
+        else if (cmd == "pubn") {   // pubn <prefix> <n> <qos 1|2>: n publishes in a row (no executor step in between), names <prefix><i>, topic "t", payload = name
+            std::string pre; unsigned n, q; is >> pre >> n >> q;
+            W.in_api = true;
+            for (unsigned i = 1; i <= n; i++) {
+                std::string op = pre + std::to_string(i);
+                if (q == 1) W.c->async_publish<qos_e::at_least_once>("t", op, retain_e::no, publish_props{},
+                    asio::bind_cancellation_slot(W.slot(op), [&W, op](error_code ec, reason_code rc, puback_props pp) {
+                        W.w.ev("done " + op + " " + ecname(ec) + " rc=" + std::to_string(rc.value()) + " props=" + pu::dump(pp) + W.ins()); }));
+                else W.c->async_publish<qos_e::exactly_once>("t", op, retain_e::no, publish_props{},
+                    asio::bind_cancellation_slot(W.slot(op), [&W, op](error_code ec, reason_code rc, pubcomp_props pp) {
+                        W.w.ev("done " + op + " " + ecname(ec) + " rc=" + std::to_string(rc.value()) + " props=" + pu::dump(pp) + W.ins()); }));
+            }
+            W.in_api = false;
+        }
         else if (cmd == "disc") { std::string op, pl; unsigned rc; is >> op >> rc >> pl; disconnect_props props; pu::fill(props, pl); W.in_api = true;
             W.c->async_disconnect(disconnect_rc_e(rc), props, asio::bind_cancellation_slot(W.slot(op), [&W, op](error_code ec) { W.w.ev("done " + op + " " + ecname(ec) + W.ins()); })); W.in_api = false; }
         else if (cmd == "sig") { std::string op, t; is >> op >> t; auto it = W.sigs.find(op);
